@@ -17,6 +17,7 @@ Line protocol of the C11 driver.
            (the two paste_paths calls of quantis through C15's PathAlg.paste / Path.reverse on a heap)
   qfields  status                 (spec: status fields of the two paths quantis returns)
   rtable   s0 s1 wfAny hasAcc     (spec: returned status and [0+] status field of retis_swap_zero)
+  inprocframes sub maxlen ase     (in-process engine that nothing stops, empty path of maxlen: "<frames> <success>")
 answer:
   accept status st0 st1 w0 w1 draws expArg | list<frame> | list<frame> | list<req> | at=<requests before the ξ draw or ->
   or err:<kind>
@@ -175,6 +176,13 @@ def handle (toks : List String) : String :=
       let t := retisTable s0 s1 wf a
       s!"{t.str} {(retisField1 s1 t).str}"
     | _, _, _, _ => "bad-op"
+  | ["inprocframes", sub, n, ase] =>
+    match parseNat? sub, parseNat? n, parseBool? ase with
+    | some sub, some n, some ase =>
+      match inprocFill sub n ase with
+      | some (k, s) => s!"{k} {if s then 1 else 0}"
+      | none => "err:IndexError"
+    | _, _, _ => "bad-op"
   | "quantis" :: rest =>
     match takeEns rest with
     | some (e0, rest) =>
